@@ -138,6 +138,26 @@ def _uartrx(spec):
     return top, [pads.rx, ghost], [rx.source.valid, rx.source.data]
 
 
+def _uartphy(spec):
+    """the RS232PHY wrapper as a SoC instantiates it (clock frequency and baud rate -> tuning word, with
+    dyn = 1 the tuning word comes out of the CSR, left at its reset value); dir selects the half
+    that is exercised, the interface is the one of _uarttx / _uartrx"""
+    from litex.soc.cores.uart import RS232PHY, UARTPads
+    top = Module()
+    pads = UARTPads()
+    pads.rx.reset = 1
+    phy = RS232PHY(pads, clk_freq=spec["clk"], baudrate=spec["baud"], with_dynamic_baudrate=bool(spec["dyn"]))
+    top.submodules.phy = phy
+    if spec["dyn"]:
+        assert _names(phy) == ["tuning_word"]
+        top.submodules.bank = csr_bus.CSRBank(phy.get_csrs(), address=0,
+                                              bus=csr_bus.Interface(data_width=32, address_width=14))
+    if spec["dir"] == "tx":
+        return top, [phy.sink.valid, phy.sink.data], [phy.sink.ready, pads.tx]
+    ghost = Signal(16)
+    return top, [pads.rx, ghost], [phy.source.valid, phy.source.data]
+
+
 class UartHint:
     """speculation hint (GraphLoop._speculate): mirrors the environments of Uart.tla so that the
     harness follows a frame to its end without asking TLC after every cycle.  Accelerator only:
@@ -238,8 +258,10 @@ class SpiSlaveHint:
         wf = self._wf.get(key)
         if wf is None:
             nl = len(cfg["lens"])
-            L = cfg["lens"][(g - 1) % nl]
-            X = cfg["words"][(g - 1) // nl]
+            nc = nl * len(cfg["words"])
+            csn = 1 if g > nc else 0            # codes above the own ones: the master talks to another slave
+            L = cfg["lens"][((g - 1) % nc) % nl]
+            X = cfg["words"][((g - 1) % nc) // nl]
             h, dw = cfg["h"], cfg["dw"]
             wf = []
             for p in range(h + 2 * h * L):
@@ -249,7 +271,7 @@ class SpiSlaveHint:
                     j = (p - h) // h
                     clk = 1 if j % 2 == 0 else 0
                     bit = min((p - h) // (2 * h) + 1 + (1 if j % 2 == 1 else 0), L)
-                wf.append((clk, 0, (X >> (dw - bit)) & 1 if bit <= dw else 0, txw, g if p == 0 else 0))
+                wf.append((clk, csn, (X >> (dw - bit)) & 1 if bit <= dw else 0, txw, g if p == 0 else 0))
             wf = self._wf[key] = tuple(wf)
         return wf
 
@@ -259,7 +281,10 @@ class SpiSlaveHint:
         if wf is None:
             if iv[4] == 0:
                 return iv == (0, 1, 0, 0, 0)
-            return idle >= cfg["gap"] and not owed and iv[0] == 0 and iv[1] == 0
+            nc = len(cfg["lens"]) * len(cfg["words"])
+            if iv[4] > nc and cfg.get("other") != 1:
+                return False
+            return idle >= cfg["gap"] and not owed and iv[0] == 0 and iv[1] == (1 if iv[4] > nc else 0)
         if p + 1 < len(wf):
             return iv == wf[p + 1]
         return iv == (0, 1, 0, 0, 0)
@@ -273,7 +298,7 @@ class SpiSlaveHint:
             return (None, 0, nidle, 0 if (o[3] == 1 or owed == 0 or owed > 4) else owed + 1)
         if p + 1 < len(wf):
             return (wf, p + 1, nidle, 0)
-        return (None, 0, nidle, 0 if o[3] == 1 else 1)
+        return (None, 0, nidle, 0 if (o[3] == 1 or wf[0][1] == 1) else 1)
 
 
 class SpiHint:
@@ -293,7 +318,9 @@ class SpiHint:
             if iv[0] == 0:
                 return iv[1] == 0 and iv[2] == 0
             return iv[3] == cs and iv[4] == csm
-        if iv[3] != cs or iv[4] != csm or iv[2] != hw:
+        if iv[3] != cs or iv[4] != csm:
+            return False
+        if iv[2] != hw and not (cfg.get("mosichg") == 1 and iv[0] == 0 and iv[2] in cfg["words"]):
             return False
         if iv[0] == 0:
             return iv[1] == hl
@@ -314,7 +341,7 @@ class SpiHint:
             return (0, 0, 0, iv[3], iv[4]) + pins
         if o[1] == 1:
             return (0, 0, 0, cs, csm) + pins
-        return (1, iv[1] if iv[0] == 1 else hl, hw, cs, csm) + pins
+        return (1, iv[1] if iv[0] == 1 else hl, iv[2], cs, csm) + pins
 
 
 def _i2c(spec):
@@ -333,9 +360,11 @@ def _i2c(spec):
     top.submodules.dut = dut
     # clock generator reload value as if software had written the config register
     dut.i2c.cg.load.reset = Constant(spec["load"], 20)
-    req, data, sl, ghost = Signal(), Signal(13), Signal(reset=1), Signal(8)
+    # req: 1 = write, 2 = read of the xfer register (data = what the master leaves on its write data lines)
+    req, data, sl, ghost = Signal(2), Signal(13), Signal(reset=1), Signal(8)
     bus = dut.bus
-    top.comb += [bus.cyc.eq(req), bus.stb.eq(req), bus.we.eq(1), bus.adr.eq(0), bus.dat_w.eq(data), bus.sel.eq(0xf)]
+    top.comb += [bus.cyc.eq(req != 0), bus.stb.eq(req != 0), bus.we.eq(req == 1), bus.adr.eq(0), bus.dat_w.eq(data),
+                 bus.sel.eq(0xf)]
     frag = top.get_fragment()
     tri = [x for x in frag.specials if isinstance(x, Tristate)]
     assert len(tri) == 2
@@ -343,15 +372,16 @@ def _i2c(spec):
         frag.specials.remove(t)
         ext = sl if t.oe is dut.sda_t.oe else Constant(1)
         frag.comb += [t.i.eq(Mux(t.oe, t.o, ext)), t.target.eq(Mux(t.oe, t.o, ext))]
-    outs = [bus.ack, dut.scl_t.oe, dut.sda_t.oe, dut.i2c.data, dut.i2c.ack, dut.i2c.idle]
+    outs = [bus.ack, dut.scl_t.oe, dut.sda_t.oe, dut.i2c.data, dut.i2c.ack, dut.i2c.idle, bus.dat_r[:14]]
     return frag, [req, data, sl, ghost], outs
 
 
 class I2cHint:
     """speculation hint for the I2C master: mirrors the hold rule of the Wishbone write, the transaction
     grammar and the slave's SDA rule of I2c.tla (a level that breaks it leads to the dead context).
-    ctx = (wb, cmd, pscl, done, bus) with cmd = None or (kind, d, a, r)"""
+    ctx = (wb, cmd, pscl, done, bus) with wb = None or (word, g, is a read), cmd = None or (kind, d, a, r)"""
     DEAD = "dead"
+    JUNK = 2048 + 4096 + 1024 + 512 + 60
 
     def init(self, cfg):
         return (None, None, 1, 2, "free")
@@ -365,9 +395,11 @@ class I2cHint:
             return False
         wb, cmd, pscl, done, bus = ctx
         if wb is not None:
-            return iv[0] == 1 and (iv[1], iv[3]) == wb
+            return iv[0] == (2 if wb[2] else 1) and (iv[1], iv[3]) == wb[:2]
         if iv[0] == 0:
             return iv[1] == 0 and iv[3] == 0
+        if iv[0] == 2:
+            return cfg.get("poll") == 1 and iv[1] == self.JUNK and iv[3] == 0
         if cmd is None:
             k = self._kind(iv[1])
             # incl. the condition commands with nothing to do (I2c.tla "nop"): STOP without an open byte
@@ -393,10 +425,10 @@ class I2cHint:
             cmd = (kind, d, a, min(r2, 10))
         if iv[2] != lvl:
             return self.DEAD
-        issue = wb is not None and o[0] == 1 and cmd is None
+        issue = wb is not None and not wb[2] and o[0] == 1 and cmd is None
         finish = cmd is not None and o[5] == 1
         if issue:
-            w, g = wb
+            w, g = wb[:2]
             kind = self._kind(w)
             if (kind == "stop" and bus != "low") or (kind == "start" and bus == "start"):
                 kind = "nop"
@@ -408,13 +440,13 @@ class I2cHint:
             ncmd = cmd
         if finish:
             bus = "start" if cmd[0] == "start" else "free" if cmd[0] == "stop" else bus if cmd[0] == "nop" else "low"
-        nwb = (None if o[0] == 1 else wb) if wb is not None else ((iv[1], iv[3]) if iv[0] == 1 else None)
+        nwb = (None if o[0] == 1 else wb) if wb is not None else ((iv[1], iv[3], iv[0] == 2) if iv[0] >= 1 else None)
         ndone = 0 if (cmd is not None or issue) else min(done + 1, 2)
         return (nwb, ncmd, scl, ndone, bus)
 
 
 MAKERS = {"timer": _timer, "wdt": _wdt, "wait": _wait, "tline": _tline, "pwm": _pwm,
-          "uarttx": _uarttx, "uartrx": _uartrx, "spim": _spim, "spis": _spis, "i2c": _i2c}
+          "uarttx": _uarttx, "uartrx": _uartrx, "uartphy": _uartphy, "spim": _spim, "spis": _spis, "i2c": _i2c}
 
 
 def make(spec):
@@ -527,6 +559,21 @@ def uart_configs(tier):
             rxm(16, pct, B6[:4], grp="rxm16")
         rxm(8, 99, B6[:4], grp="rxm8b")
         rxm(8, 101, B6[:4], grp="rxm8b")
+
+    # the RS232PHY wrapper itself (clk_freq / baudrate -> tuning word = floor(2^32 * baud / clk), statically or as
+    # the reset value of the tuning-word CSR), judged by the same contracts
+    def phy(dir_, clk, baud, dyn, **cfg):
+        c.add({"core": "uartphy", "dir": dir_, "clk": clk, "baud": baud, "dyn": dyn}, kind=dir_, pn=clk, pd=baud,
+              rs=0 if (baud << 32) % clk == 0 else -1, **cfg)
+    phy("tx", 5, 2, 1, bytes=B16)
+    phy("tx", 4, 1, 0, bytes=B16[:8] if q else B16)
+    phy("rx", 5, 1, 0, tn=5, td=1, phis=[0], bytes=B6, brk=1)
+    phy("rx", 4, 1, 1, tn=4, td=1, phis=[0], bytes=B6[:4] if q else B6, brk=1)
+    if not q:
+        phy("tx", 3, 1, 1, bytes=B16)
+        phy("tx", 16, 3, 0, bytes=B16)
+        phy("rx", 8, 1, 1, tn=8, td=1, phis=[0], bytes=B6, brk=1)
+        phy("rx", 8, 1, 0, tn=196, td=25, phis=list(range(0, 25, 3)), bytes=B6[:4], brk=1, grp="rxm8")
     return c.L
 
 
@@ -540,6 +587,8 @@ def spim_configs(tier):
              overlap=1, dw=4, pu=0, **kw):
         spec = {"core": "spim", "dw": dw, "div": div, "mode": mode, "loop": loop, "pu": pu,
                 "scen": "%s/%s/%s/%d/%d" % (list(lens), len(words), [list(x) for x in csopts], overlap, idle)}
+        if kw.get("mosichg"):
+            spec["mosichg"] = kw["mosichg"]
         c.add(spec, kind="spim", dw=dw, mode=mode, loop=loop, idle=idle, lens=list(lens), words=list(words),
               csopts=[list(x) for x in csopts], overlap=overlap, pu=pu, **kw)
     WB = ["transfer completed", "back-to-back start", "mixed miso bits read back"]
@@ -554,9 +603,14 @@ def spim_configs(tier):
     spim(3, "aligned", words=X3[:2], lens=(1, 2, 3), dw=3, loop=1, overlap=0, wit=WB, live=1)
     spim(2, "raw", words=X3, lens=(1, 2, 3), dw=3)
     spim(3, "aligned", words=X3, lens=(1, 2, 3), dw=3, idle=1)
+    # software writes the next word to the MOSI register while a transfer is in flight
+    MC = WB + ["mosi register rewritten during a transfer", "read-back word held during the next transfer"]
+    spim(2, "raw", words=(0b101, 0b010), lens=(2, 3), dw=3, overlap=0, mosichg=1, grp="mc", wit=MC)
     if q:
         spim(2, "aligned", words=(0b1010, 0b0110), grp="w4")
     else:
+        spim(3, "aligned", words=X3, lens=(1, 2, 3), dw=3, overlap=1, mosichg=1, grp="mc", wit=MC + ["start during a transfer"])
+        spim(4, "raw", words=(0b1010, 0b0101), lens=(3, 4), dw=4, overlap=0, mosichg=1, loop=1, grp="mc", wit=MC)
         spim(2, "aligned", words=X3, lens=(1, 2, 3), dw=3, idle=1)
         spim(3, "raw", words=X3, lens=(1, 2, 3), dw=3)
         spim(4, "raw", words=X3, lens=(1, 2, 3), dw=3, live=1)
@@ -577,8 +631,16 @@ def spis_configs(tier):
     q = tier == "quick"
 
     def spis(h, gap, dw=4, lens=(1, 2, 3, 4), words=(0b1010, 0b0110, 0b1111), txws=(0b1001, 0b0110), **kw):
-        c.add({"core": "spis", "dw": dw, "h": h, "gap": gap, "scen": "%s/%d/%d" % (list(lens), len(words), len(txws))},
-              kind="spis", dw=dw, h=h, gap=gap, lens=list(lens), words=list(words), txws=list(txws), **kw)
+        spec = {"core": "spis", "dw": dw, "h": h, "gap": gap, "scen": "%s/%d/%d" % (list(lens), len(words), len(txws))}
+        if kw.get("other"):
+            spec["other"] = kw["other"]
+        c.add(spec, kind="spis", dw=dw, h=h, gap=gap, lens=list(lens), words=list(words), txws=list(txws), **kw)
+    # shared bus: clock and mosi move for another slave while this one is deselected
+    OW = ["transfer reported", "transfer after the minimum gap", "full word sent",
+          "clock pulses for another slave after a received word"]
+    spis(4, 3, dw=3, lens=(1, 3), words=(0b101, 0b010), txws=(0b110,), other=1, grp="o", wit=OW)
+    if not q:
+        spis(5, 3, dw=4, lens=(2, 4, 5), words=(0b1010, 0b0110), txws=(0b1001, 0b0110), other=1, grp="o", wit=OW)
     # the slave needs 3 cycles from a pin edge to its reaction (2-stage synchroniser + edge detect): half
     # periods below 4 sys cycles cannot work by design and are not claimed
     if q:
@@ -598,14 +660,21 @@ def i2c_configs(tier):
     ALLC = ["start", "stop", "write", "read"]
 
     def i2c(load, cmds=ALLC, bytes_=(0xa5, 0x00), sbytes=(0x5a, 0xff), early=0, **kw):
-        c.add({"core": "i2c", "load": load, "scen": "%s/%d/%d/%d" % ("".join(x[0] + x[2] for x in cmds), len(bytes_), len(sbytes), early)},
-              kind="i2c", load=load, cmds=list(cmds), bytes=list(bytes_), sbytes=list(sbytes), early=early, **kw)
+        spec = {"core": "i2c", "load": load, "scen": "%s/%d/%d/%d" % ("".join(x[0] + x[2] for x in cmds), len(bytes_), len(sbytes), early)}
+        if kw.get("poll"):
+            spec["poll"] = kw["poll"]
+        c.add(spec, kind="i2c", load=load, cmds=list(cmds), bytes=list(bytes_), sbytes=list(sbytes), early=early, **kw)
+    # software polls the xfer register (Wishbone reads, a stale command word on the write data lines) at any time
+    PW = ["byte written and acknowledged", "byte written, not acknowledged", "byte read", "stop", "repeated start",
+          "register polled during a byte", "register polled while idle", "idle status with a data byte read"]
     # load = 0 (SCL toggling every cycle) cannot work by design: the pad logic changes SDA only after
     # SCL has been stable for a cycle; not claimed
     i2c(1, early=1, cmds=["start", "write"], bytes_=(0xa5,), canary=1, wit=["command written while busy"])
+    i2c(1, bytes_=(0xa5,), sbytes=(0x5a,), poll=1, grp="p", wit=PW)
     if q:
         i2c(1, live=1)
     else:
+        i2c(2, bytes_=(0x3c,), sbytes=(0xc3,), poll=1, grp="p", wit=PW)
         i2c(1, bytes_=(0xa5, 0x00, 0xff, 0x81), sbytes=(0x5a, 0xff, 0x00, 0x7e), live=1)
         i2c(2, live=1)
         i2c(3, bytes_=(0x5a, 0xff), sbytes=(0xa5, 0x01))
@@ -742,7 +811,7 @@ def tmode_candidates(cfg, ctx, rnd):
     if k == "i2c":
         wb, cmd, pscl, done = ctx[:4]
         if wb is not None:
-            return [(1, wb[0], b, wb[1]) for b in (1, 0)]
+            return [(2 if wb[2] else 1, wb[0], b, wb[1]) for b in (1, 0)]
         out = [(0, 0, b, 0) for b in (1, 0)]
         if cmd is None and done >= 1 and rnd.random() < 0.5:
             words = []
